@@ -47,9 +47,11 @@ def GState.init (w : Fin C → α) (thr : α) : GState C D α :=
 /-- what an M-step assigns (in the order weights, means, variances), as a function of the visible state -/
 structure Assign (C D : Nat) (α : Type) where
   weights : Option (Fin C → α)
-  means : Option (Fin C → Fin D → α)
-  /-- the variance assignment may depend on the means just assigned -/
-  variances : Option ((Fin C → Fin D → α) → Fin C → Fin D → α)
+  /-- the means assignment may depend on the current means (a component without enough data keeps its
+  mean, D25) -/
+  means : Option ((Fin C → Fin D → α) → Fin C → Fin D → α)
+  /-- the variance assignment may depend on the means just assigned and on the current variances -/
+  variances : Option ((Fin C → Fin D → α) → (Fin C → Fin D → α) → Fin C → Fin D → α)
 
 inductive GOp (C D : Nat) (α : Type) where
   | setWeights (w : Fin C → α)
@@ -65,12 +67,14 @@ inductive GOp (C D : Nat) (α : Type) where
 def GState.assignW (s : GState C D α) : Option (Fin C → α) → GState C D α
   | some w => s.setWeights w
   | none => s
-def GState.assignM (s : GState C D α) : Option (Fin C → Fin D → α) → GState C D α
-  | some m => s.setMeans m
+/-- (an M-step is reached with means and variances set — its statistics come from an E-step; for
+totality an unset array reads as zeros) -/
+def GState.assignM (s : GState C D α) : Option ((Fin C → Fin D → α) → Fin C → Fin D → α) → GState C D α
+  | some f => s.setMeans (f (match s.means with | some m => m | none => fun _ _ => 0))
   | none => s
-def GState.assignV (s : GState C D α) (f : Option ((Fin C → Fin D → α) → Fin C → Fin D → α)) : GState C D α :=
+def GState.assignV (s : GState C D α) (f : Option ((Fin C → Fin D → α) → (Fin C → Fin D → α) → Fin C → Fin D → α)) : GState C D α :=
   match f, s.means with
-  | some f, some m => s.setVariances (f m)
+  | some f, some m => s.setVariances (f m (match s.variances with | some v => v | none => fun _ _ => 0))
   | _, _ => s
 
 def GState.step (s : GState C D α) : GOp C D α → GState C D α
